@@ -351,6 +351,10 @@ type impl struct {
 	wrMark   int
 	evMark   int
 	live *liveFrontend // the frontend object the terminal currently holds
+	keptLine *te.Line // a row fetched after the previous step (must not change under the caller)
+	keptText string
+	keptW    int
+	keptY    int
 }
 
 // liveFrontend is what the terminal is given: it forwards to the recorder until it has been
